@@ -39,6 +39,12 @@ static void *objaddr[SX_MAXOBJ];
 static int nobj = 0;
 static int mtx_owner[SX_MAXOBJ];
 static int unlock_points = 0;
+/* Happens-before hashes (DESIGN.md 12.1): hb_t[t] identifies the complete causal history of thread t -- its own operations in
+ * program order plus, at every acquire (lock, re-acquire after a wait, wake-up, join, start), the history of the releasing
+ * thread at its release.  For data-race-free code everything a thread can read is determined by that history, so two
+ * executions that reach the same vector of thread histories + the same scheduler state have the same futures. */
+static uint64_t hb_t[SX_MAXT];
+static uint64_t hb_o[SX_MAXOBJ];
 
 static int (*r_mutex_lock)(pthread_mutex_t *);
 static int (*r_mutex_trylock)(pthread_mutex_t *);
@@ -80,7 +86,7 @@ static int obj_id(void *p) {
   int i;
   for (i = 0; i < nobj; i++) if (objaddr[i] == p) return i;
   if (nobj >= SX_MAXOBJ) { snprintf(sx_sh->detail, sizeof sx_sh->detail, "too many sync objects"); sx_sh->outcome = SX_OUT_TOOLONG; _exit(40); }
-  objaddr[nobj] = p; mtx_owner[nobj] = -1;
+  objaddr[nobj] = p; mtx_owner[nobj] = -1; hb_o[nobj] = 0;
   return nobj++;
 }
 
@@ -95,6 +101,15 @@ static int enabled(int t) {
 }
 
 static uint64_t mix(uint64_t h, uint64_t v) { h ^= v + 0x9e3779b97f4a7c15ULL + (h << 6) + (h >> 2); return h * 0x100000001b3ULL; }
+static void hb_own(int t, int op, int obj) { hb_t[t] = mix(hb_t[t], ((uint64_t)op << 16) | (uint64_t)(obj & 0xffff)); }
+static void hb_acq(int t, uint64_t from) { hb_t[t] = mix(hb_t[t], from ^ 0x5bd1e995u); }
+static uint64_t hb_state_hash(void) {
+  uint64_t h = 0x243f6a8885a308d3ULL; int t, i;
+  for (t = 0; t < nthr; t++) { h = mix(h, hb_t[t]); h = mix(h, (uint64_t)T[t].finished | (T[t].status << 1) | (T[t].op << 4) | ((uint64_t)T[t].obj << 12) | ((uint64_t)(T[t].cv & 0xff) << 24)); }
+  for (i = 0; i < nobj; i++) { h = mix(h, (uint64_t)(mtx_owner[i] + 2)); h = mix(h, hb_o[i]); }
+  if (sx_driver_hash) h = mix(h, sx_driver_hash());
+  return h;
+}
 static uint64_t state_hash(void) {
   uint64_t h = 1469598103934665603ULL; int t, i;
   for (t = 0; t < nthr; t++) h = mix(h, (uint64_t)T[t].finished | (T[t].status << 1) | (T[t].op << 4) | ((uint64_t)T[t].obj << 12) | ((uint64_t)(T[t].cv & 0xff) << 24));
@@ -130,6 +145,7 @@ static void schedule(int me, int me_leaves) {
     p->running = (uint8_t)me; p->running_enabled = (uint8_t)me_en; p->nenabled = (uint8_t)n;
     memcpy(p->enabled, en, n); p->chosen = (uint8_t)idx; p->op = (uint8_t)T[en[idx]].op; p->obj = (uint8_t)T[en[idx]].obj;
     p->state_hash = state_hash();
+    p->hb_hash = hb_state_hash();
     sx_sh->npoints = k + 1;
   }
   int next = en[idx];
@@ -148,6 +164,7 @@ void sx_begin(void) {
   memset(T, 0, sizeof T); nthr = 1; nobj = 0;
   T[0].used = 1; T[0].op = SX_OP_NONE; T[0].real = pthread_self();
   my = 0; cur = 0;
+  memset(hb_t, 0, sizeof hb_t); memset(hb_o, 0, sizeof hb_o); hb_t[0] = 1;
   unlock_points = getenv("SX_UNLOCK_POINTS") ? atoi(getenv("SX_UNLOCK_POINTS")) : 0;
   sx_sh->npoints = 0; sx_sh->outcome = SX_OUT_RUNNING;
   active = 1;
@@ -161,6 +178,7 @@ int pthread_mutex_lock(pthread_mutex_t *m) {
   int o = obj_id(m);
   point(SX_OP_LOCK, o);
   mtx_owner[o] = my;
+  hb_own(my, SX_OP_LOCK, o); hb_acq(my, hb_o[o]);
   return r_mutex_lock(m);
 }
 int pthread_mutex_trylock(pthread_mutex_t *m) {
@@ -168,8 +186,9 @@ int pthread_mutex_trylock(pthread_mutex_t *m) {
   if (!sx_active()) return r_mutex_trylock(m);
   int o = obj_id(m);
   point(SX_OP_TRYLOCK, o);
-  if (mtx_owner[o] != -1) return EBUSY;
+  if (mtx_owner[o] != -1) { hb_own(my, SX_OP_TRYLOCK, o + 0x4000); hb_acq(my, hb_t[mtx_owner[o]]); return EBUSY; }
   mtx_owner[o] = my;
+  hb_own(my, SX_OP_TRYLOCK, o); hb_acq(my, hb_o[o]);
   return r_mutex_trylock(m);
 }
 int pthread_mutex_unlock(pthread_mutex_t *m) {
@@ -178,6 +197,7 @@ int pthread_mutex_unlock(pthread_mutex_t *m) {
   int o = obj_id(m);
   if (unlock_points) point(SX_OP_UNLOCK, o);
   mtx_owner[o] = -1;
+  hb_own(my, SX_OP_UNLOCK, o); hb_o[o] = hb_t[my];
   return r_mutex_unlock(m);
 }
 int pthread_cond_wait(pthread_cond_t *c, pthread_mutex_t *m) {
@@ -186,9 +206,11 @@ int pthread_cond_wait(pthread_cond_t *c, pthread_mutex_t *m) {
   int co = obj_id(c), mo = obj_id(m), me = my;
   point(SX_OP_CVWAIT, co);                 /* still holding m: the window between predicate and block */
   r_mutex_unlock(m); mtx_owner[mo] = -1;   /* atomically: release + enqueue as waiter */
+  hb_own(me, SX_OP_CVWAIT, co); hb_own(me, SX_OP_UNLOCK, mo); hb_o[mo] = hb_t[me];
   T[me].status = ST_CVWAIT; T[me].cv = co; T[me].op = SX_OP_CVREACQ; T[me].obj = mo;
   schedule(me, 0);                         /* not enabled until notified and m is free */
   mtx_owner[mo] = me;
+  hb_own(me, SX_OP_CVREACQ, mo); hb_acq(me, hb_o[mo]);
   return r_mutex_lock(m);
 }
 int pthread_cond_broadcast(pthread_cond_t *c) {
@@ -196,7 +218,8 @@ int pthread_cond_broadcast(pthread_cond_t *c) {
   if (!sx_active()) return r_cond_broadcast(c);
   int co = obj_id(c), t;
   point(SX_OP_BROADCAST, co);
-  for (t = 0; t < nthr; t++) if (T[t].used && !T[t].finished && T[t].status == ST_CVWAIT && T[t].cv == co) T[t].status = ST_READY;
+  hb_own(my, SX_OP_BROADCAST, co);
+  for (t = 0; t < nthr; t++) if (T[t].used && !T[t].finished && T[t].status == ST_CVWAIT && T[t].cv == co) { T[t].status = ST_READY; hb_acq(t, hb_t[my]); }
   return 0;
 }
 int pthread_cond_signal(pthread_cond_t *c) {
@@ -204,7 +227,8 @@ int pthread_cond_signal(pthread_cond_t *c) {
   if (!sx_active()) return r_cond_signal(c);
   int co = obj_id(c), t;
   point(SX_OP_SIGNAL, co);
-  for (t = 0; t < nthr; t++) if (T[t].used && !T[t].finished && T[t].status == ST_CVWAIT && T[t].cv == co) { T[t].status = ST_READY; break; }
+  hb_own(my, SX_OP_SIGNAL, co);
+  for (t = 0; t < nthr; t++) if (T[t].used && !T[t].finished && T[t].status == ST_CVWAIT && T[t].cv == co) { T[t].status = ST_READY; hb_acq(t, hb_t[my]); break; }
   return 0;
 }
 static void *trampoline(void *a) {
@@ -214,6 +238,7 @@ static void *trampoline(void *a) {
   void *r = T[id].fn(T[id].arg);
   /* thread exit: a visible operation (others may be joining) */
   T[id].op = SX_OP_EXIT; T[id].finished = 1;
+  hb_own(id, SX_OP_EXIT, 0);
   if (active) schedule(id, 1);
   return r;
 }
@@ -225,6 +250,7 @@ int pthread_create(pthread_t *th, const pthread_attr_t *attr, void *(*fn)(void *
   memset(&T[id], 0, sizeof T[id]);
   T[id].used = 1; T[id].fn = fn; T[id].arg = arg; T[id].op = SX_OP_START;
   nthr++;
+  hb_own(my, SX_OP_CREATE, id); hb_t[id] = mix(hb_t[my], 0xc0ffee);
   int rc = r_create(th, attr, trampoline, (void *)(long)id);
   T[id].real = *th;
   point(SX_OP_CREATE, id);                 /* the new thread may run first */
@@ -235,6 +261,6 @@ int pthread_join(pthread_t th, void **ret) {
   if (!sx_active()) return r_join(th, ret);
   int t, id = -1;
   for (t = 0; t < nthr; t++) if (T[t].used && pthread_equal(T[t].real, th)) id = t;
-  if (id >= 0) point(SX_OP_JOIN, id);
+  if (id >= 0) { point(SX_OP_JOIN, id); hb_own(my, SX_OP_JOIN, id); hb_acq(my, hb_t[id]); }
   return r_join(th, ret);
 }
